@@ -220,7 +220,7 @@ CHECKS['C10'] = {
              'BOUNDED numeric: coordinate map of the configured height, width = length x scale, columns uniform from first to last baseline point, rows linear from ascender to '
              'descender and perpendicular to the baseline, fast path == general path, shift equivariance, no blank fallback for non-degenerate baselines in orders 0/1/2; degenerate '
              'lines fall back to a blank image of the configured height, never an error - on integer baselines of 2..5 points x steps x slopes (within 60 degrees) x offsets x size '
-             'variants, plus an arc and an S-shaped baseline.'),
+             'variants, plus an arc and an S-shaped baseline; every line cropped twice with float64-array heights: line left unchanged, same map each time.'),
     'note': 'Trusted: pyvc; numba object-mode jit; cv2.remap, scipy/numpy interpolation (A6); continuous geometry beyond the grid is not decided; trigonometry is not reasoned about.',
 }
 CHECKS['C18'] = {
@@ -228,7 +228,7 @@ CHECKS['C18'] = {
     'technique': 'partial: deductive proof of rotate_layout against the np.rot90 axiom (z3) + bounded numeric contract of parse()/detect() on synthetic ridge maps with a stub network',
     'text': ('PROVED for all image sizes and any number of points: rotate_layout maps baselines, outlines and region polygons of an analysis rotated by 90/180/270 degrees to within '
              'one pixel of their exact pre-image under np.rot90, all three lists consistently. BOUNDED numeric: parse() gives one line per ridge with end points within 3 ds, vertical '
-             'position within ~1.5 ds, heights = map x ds and each line its own heights, on synthetic maps (1-3 ridges, lengths 6/20/60, slopes 0/+-0.1, end-point responses on/off, '
+             'position within ~1.5 ds, heights = map x ds and each line its own heights, on synthetic maps (1-3 ridges, lengths 6/20/60, slopes 0/+-0.1 plus pairs of slope +-0.25 with overlapping bounding boxes, end-point responses on/off, '
              'ds 1/2/4/8); detect() with a stub network returns original-image coordinates for rot 0..3 on a non-square page.'),
     'note': 'Trusted: np.rot90 axiom, scipy.ndimage / shapely / cv2 (A6); lists of length one in the rotation proof (the code treats list elements independently); ridge decoding beyond the grid not decided.',
 }
